@@ -62,7 +62,7 @@ func pkgOf(fn *ssa.Function) string {
 
 func cstr(v Value) string {
 	s, ok := v.(strV)
-	if !ok || s.opaque || s.ite != nil {
+	if !ok || s.opaque || s.ite != nil || s.sym != nil {
 		panic(unsupported("concrete string expected"))
 	}
 	return s.s
@@ -132,6 +132,10 @@ func (ex *Exec) sprintf(format Value, rest Value) strV {
 		for _, a := range sv.arr {
 			n, ok := ex.nativeArg(a)
 			if !ok {
+				// symbolic integers / symbolic strings: structured symbolic result where the format allows
+				if r, ok := ex.symSprintf(f.s, sv.arr); ok {
+					return r
+				}
 				return strV{opaque: true}
 			}
 			nat = append(nat, n)
@@ -141,6 +145,11 @@ func (ex *Exec) sprintf(format Value, rest Value) strV {
 		return strV{opaque: true}
 	}
 	return strV{s: fmt.Sprintf(f.s, nat...)}
+}
+
+func hasStringMethod(t types.Type) bool {
+	n, ok := t.(*types.Named)
+	return ok && n.NumMethods() > 0
 }
 
 func init() {
@@ -194,6 +203,14 @@ func init() {
 		return ex.tc.Bool(strings.Contains(cstr(a[0]), cstr(a[1]))), false
 	}
 	I["strings.ToLower"] = func(ex *Exec, th *Thread, fn *ssa.Function, a []Value) (Value, bool) {
+		if sv, ok := a[0].(strV); ok && sv.sym != nil {
+			for _, p := range sv.sym {
+				if p.num == nil && strings.ToLower(p.lit) != p.lit {
+					panic(unsupported("ToLower of symbolic string with upper-case literal"))
+				}
+			}
+			return sv, false
+		}
 		return strV{s: strings.ToLower(cstr(a[0]))}, false
 	}
 	I["strings.ToUpper"] = func(ex *Exec, th *Thread, fn *ssa.Function, a []Value) (Value, bool) {
@@ -254,11 +271,7 @@ func init() {
 		return strV{s: strings.Join(parts, sep.s)}, false
 	}
 	I["strconv.Itoa"] = func(ex *Exec, th *Thread, fn *ssa.Function, a []Value) (Value, bool) {
-		t := a[0].(*Term)
-		if !t.IsConst() {
-			return strV{opaque: true}, false
-		}
-		return strV{s: strconv.Itoa(int(sext(t.c, t.w)))}, false
+		return ex.symNum(a[0].(*Term), true), false
 	}
 	I["strconv.FormatInt"] = func(ex *Exec, th *Thread, fn *ssa.Function, a []Value) (Value, bool) {
 		t := a[0].(*Term)
@@ -276,6 +289,9 @@ func init() {
 		return strV{s: strconv.FormatBool(t.c == 1)}, false
 	}
 	I["strconv.Atoi"] = func(ex *Exec, th *Thread, fn *ssa.Function, a []Value) (Value, bool) {
+		if sv, ok := a[0].(strV); ok && len(sv.sym) == 1 && sv.sym[0].num != nil {
+			return tupleV{sv.sym[0].num, ex.nilErr()}, false // the decimal rendering of an int64 always parses
+		}
 		n, err := strconv.Atoi(cstr(a[0]))
 		if err != nil {
 			return tupleV{ex.mkInt(0), ex.newError(err.Error(), false)}, false
@@ -580,6 +596,18 @@ func init() {
 			}
 		}
 		return ex.mkInt(-1), false
+	}
+	// ---- log.CapturePanic (deferred): recover a panic into *retError (the log package is otherwise a no-op)
+	I["go.temporal.io/server/common/log.CapturePanic"] = func(ex *Exec, th *Thread, fn *ssa.Function, a []Value) (Value, bool) {
+		if th.panicking && len(th.frames) > 0 && th.frames[len(th.frames)-1].unwinding {
+			th.panicking = false
+			th.panicVal = nil
+			if p, ok := a[1].(Ptr); ok && p.slot != nil {
+				storeSlot(p.slot, ex.newError("panic captured: "+th.panicMsg, false))
+			}
+			ex.stubsHit["panic-captured"] = true
+		}
+		return nil, false
 	}
 	// ---- maps.clone (runtime linkname): shallow copy
 	I["maps.clone"] = func(ex *Exec, th *Thread, fn *ssa.Function, a []Value) (Value, bool) {
